@@ -70,6 +70,33 @@ def run(tier, seed, replay=None):
                 V.fail("correspondence(model/impl) rank_chop direct", {"s": s, "eps": k, "scale": scale, "dtype": dt, "impl": r, "model": m[0]}, failing_input=False)
             else:
                 n_l1_ok += 1
+    # ---- layer 1b: spectra with a noise floor / slow decay many decades below the first value, tight eps: the COLLECTIVE energy of the small values decides
+    # (a running sum that starts at the large end loses it); exact replay of the float data in the model (cases within 1e-9 of a tie are left out)
+    nf_cases, nf_meta = [], []
+    rng_nf = random.Random(seed + 71)
+    for j in range(24 if tier == "quick" else 240):
+        kind_ = j % 3
+        if kind_ == 0:
+            s_ = np.array([1.0] + [1e-9 * rng_nf.uniform(0.8, 1.2) for _ in range(rng_nf.choice([15, 31, 63]))]); eps_ = rng_nf.choice([2e-9, 3e-9, 5e-9, 8e-9])
+        elif kind_ == 1:
+            s_ = np.array([rng_nf.uniform(0.75, 0.85) ** k_ for k_ in range(rng_nf.choice([90, 120]))]); eps_ = rng_nf.choice([1e-8, 1e-9, 1e-10])
+        else:
+            s_ = np.array([1.0, 0.5] + [3e-10] * rng_nf.choice([20, 40]) + [1e-12] * 10); eps_ = rng_nf.choice([1e-9, 2e-9, 4e-9])
+        s_ = np.sort(s_)[::-1].copy() * rng_nf.choice([1.0, 1e3, 2.0 ** -20])
+        eps_ = eps_ * float(s_[0])
+        try: r_ = int(D.rank_chop(s_.copy(), float(eps_)))
+        except Exception as ex: r_ = -1
+        q_, thr2_, margin_ = exact_scaled(s_, eps_)
+        if margin_ < 1e-9: continue
+        nf_cases.append((q_, True, thr2_)); nf_meta.append((s_.tolist(), float(eps_), r_))
+        disc_ = float(np.sum(s_[r_:] ** 2)) if r_ >= 1 else float("inf")
+        if r_ < 1 or disc_ > eps_ * eps_ * (1 + 1e-9): V.fail("rank_chop discards more than eps^2 [noise-floor spectrum]", {"s_head": s_[:3].tolist(), "len": len(s_), "eps": float(eps_), "impl": r_, "discarded": disc_})
+    if ok_make and nf_cases:
+        mres = coqrun.eval_nat_lists("C01_l1b", IMPORTS, "", model_rank_exprs(nf_cases), shard=12)
+        for (s_, e_, r_), m in zip(nf_meta, mres):
+            if r_ != m[0]: V.fail("correspondence(model/impl) rank_chop on a noise-floor spectrum", {"s_head": s_[:3], "len": len(s_), "eps": e_, "impl": r_, "model": m[0]}, failing_input=True)
+            else: n_l1_ok += 1
+    dist["rank_chop noise-floor spectra"] = len(nf_cases)
     # the property on rank_chop itself (independent of the model): discarded energy <= eps^2, incl. ties
     for s, k, scale, dt, r in impl_r:
         if r < 1 or r > len(s):
@@ -283,6 +310,7 @@ def gen_case(rng, i):
     dd = len(shape) if shape is not None else len(N)
     if rng.random() < 0.3 and dd >= 2:
         rmax = rng.choice([1, 2, 3]) if rng.random() < 0.6 else [1] + [rng.choice([1, 2, 3, 100]) for _ in range(dd - 1)] + [1]
+        if isinstance(rmax, int) and rng.random() < 0.4: rmax = rng.choice([np.int64, np.int32])(rmax)        # rank caps computed with numpy (np.min, an entry of an integer array)
         fam += "-rmax"
     return A, shape, float(eps), rmax, dtype, src, fam
 
